@@ -38,16 +38,40 @@ func UnixSlot(u int64) int64 {
 	return -((-y + 9) / 10)
 }
 
+// Zs/Ze choose the *time.Location of the time.Time values handed to the segment (same instant):
+// 0 = time.Unix (Local), 1 = UTC, 2 = a fixed-offset zone. Callers of the real code mix them
+// (attime.Parse returns UTC for dates and Local for Unix timestamps; Deserialize rebuilds node times
+// with time.Unix), so the harnesses do too.
 type Write struct {
 	St      int64  `json:"st"` // Unix seconds
 	Et      int64  `json:"et"`
 	Samples uint64 `json:"n"`
+	Zs      int    `json:"zs,omitempty"`
+	Ze      int    `json:"ze,omitempty"`
 }
 
 type Query struct {
 	St int64 `json:"st"`
 	Et int64 `json:"et"`
+	Zs int   `json:"zs,omitempty"`
+	Ze int   `json:"ze,omitempty"`
 }
+
+var fixedZone = time.FixedZone("verif+0530", 5*3600+1800)
+
+// T builds the time.Time for Unix second u in the location chosen by z.
+func T(u int64, z int) time.Time {
+	switch z % 3 {
+	case 1:
+		return time.Unix(u, 0).UTC()
+	case 2:
+		return time.Unix(u, 0).In(fixedZone)
+	}
+	return time.Unix(u, 0)
+}
+
+// RandZone: Local, UTC or the fixed-offset zone.
+func RandZone(r *rand.Rand) int { return r.Intn(3) }
 
 // PutCB is one callback of Segment.Put as observed.
 type PutCB struct {
@@ -67,7 +91,7 @@ type GetCB struct {
 // Put runs Segment.Put and records the callbacks in the order they are made.
 func Put(s *segment.Segment, w Write) []PutCB {
 	var cbs []PutCB
-	s.Put(time.Unix(w.St, 0), time.Unix(w.Et, 0), w.Samples, func(depth int, t time.Time, r *big.Rat, addons []segment.Addon) {
+	s.Put(T(w.St, w.Zs), T(w.Et, w.Ze), w.Samples, func(depth int, t time.Time, r *big.Rat, addons []segment.Addon) {
 		c := PutCB{Depth: depth, T: t.Unix(), Num: r.Num().Int64(), Den: r.Denom().Int64()}
 		for _, a := range addons {
 			c.Addons = append(c.Addons, [2]int64{int64(a.Depth), a.T.Unix()})
@@ -79,7 +103,7 @@ func Put(s *segment.Segment, w Write) []PutCB {
 
 func Get(s *segment.Segment, q Query) []GetCB {
 	var cbs []GetCB
-	s.Get(time.Unix(q.St, 0), time.Unix(q.Et, 0), func(depth int, samples, writes uint64, t time.Time, r *big.Rat) {
+	s.Get(T(q.St, q.Zs), T(q.Et, q.Ze), func(depth int, samples, writes uint64, t time.Time, r *big.Rat) {
 		cbs = append(cbs, GetCB{Depth: depth, T: t.Unix(), Samples: samples, Writes: writes, Num: r.Num().Int64(), Den: r.Denom().Int64()})
 	})
 	return cbs
@@ -259,5 +283,5 @@ func RandWrite(r *rand.Rand, w Window, maxSpan int64) Write {
 	default:
 		n = uint64(1 + r.Intn(100))
 	}
-	return Write{St: st, Et: et, Samples: n}
+	return Write{St: st, Et: et, Samples: n, Zs: RandZone(r), Ze: RandZone(r)}
 }
